@@ -322,6 +322,8 @@ def fingerprint(w):
         ",".join("%s%s" % (owner.get(id(f), "?"), fut(f)) for f in q._putters),
         str(q._unfinished_tasks), str(int(w.ch._closed)), str(int(w.ch._flushed)), str(w.ch._waiting_receivers),
         " ".join(ts),
-        ",".join("%d:%d.%d" % (i, x[0], x[1]) for i, x in w.recv_log),
+        # (an item that is not one of the (sender, seq) pairs the harness sent is an invented item: the judge reports it)
+        ",".join(("%d:%d.%d" % (i, x[0], x[1])) if isinstance(x, tuple) and len(x) == 2 else "%d:?%s" % (i, type(x).__name__)
+                 for i, x in w.recv_log),
         ",".join("%d.%d" % it for it, _ in w.send_completed),
     ])
